@@ -278,3 +278,108 @@ func CheckQueue(c *vrep.Ctx, api *QueueAPI) {
 	c.Bound("depth_reached", depth)
 	c.Bound("fixpoint", len(frontier) == 0)
 }
+
+// CheckQueueLong drives the real queue through LONG operation sequences from a structured family
+// (the breadth-first search only reaches sizes <= 8): grow to n elements for EVERY n up to a
+// bound, with a priority pattern, then drain completely with a pattern of Pop / Remove(position) /
+// Fix, with refill phases in between; every step is checked against the model like in the search.
+// Size-dependent behaviour (backing-array growth and shrinking, thresholds) lives here.
+func CheckQueueLong(c *vrep.Ctx, api *QueueAPI) {
+	maxN := c.ParamInt("maxn", c.Pick(160, 600))
+	patterns := []string{"ascending", "descending", "constant", "alternating", "lcg"}
+	drains := []string{"pop", "remove-first", "remove-last", "remove-middle", "pop-and-remove-last", "pop-refill-half-pop", "fix-then-pop"}
+	c.R.Rule = fmt.Sprintf("long sequences on the real pq.Queue: for EVERY n in 1..%d x %d priority patterns x %d drain patterns x {min, max order}: push n elements, then empty the queue completely (Pop only; Remove of the first / last / middle position; Pop alternating with Remove(last); drain to half, refill to n, drain; change a priority + Fix before every Pop); after every single operation: heap order, Len, setIndex positions, multiset against the model, Pop minimal; non-trivial = operations executed", maxN, len(patterns), len(drains))
+	c.Bound("max_elements", maxN)
+	prio := func(pat string, i int, x *uint32) int {
+		switch pat {
+		case "ascending":
+			return i
+		case "descending":
+			return 100000 - i
+		case "constant":
+			return 7
+		case "alternating":
+			return (i % 2) * 50
+		}
+		*x = *x*1664525 + 1013904223
+		return int((*x >> 10) % 1000)
+	}
+	for n := 1; n <= maxN; n++ {
+		if c.Shards > 1 && n%c.Shards != c.Shard {
+			continue
+		}
+		if c.Expired() {
+			c.R.Exhaustive = false
+			break
+		}
+		for _, pat := range patterns {
+			for _, dr := range drains {
+				for _, maxFirst := range []bool{false, true} {
+					m := &qmc{api: api, maxFirst: maxFirst, withIdx: true}
+					q := m.newQ()
+					var model []int
+					x := uint32(n)
+					var hist []string
+					fail := func(msg string) {
+						c.Violate(fmt.Sprintf("c20_queue_long:n=%d:%s:%s:max=%v", n, pat, dr, maxFirst), fmt.Sprintf("queue(order max=%v) grown to %d (%s priorities), drain %q, after %d operations (last: %v): %s", maxFirst, n, pat, dr, len(hist), tailStr(hist, 4), msg), nil, msg)
+					}
+					do := func(o qop) bool {
+						hist = append(hist, o.String())
+						c.R.Evaluations++
+						c.R.Nontrivial++
+						if msg := m.step(q, &model, o); msg != "" {
+							fail(msg)
+							return false
+						}
+						return true
+					}
+					ok := true
+					grow := func(to int) {
+						for i := len(model); ok && i < to; i++ {
+							ok = do(qop{"Push", prio(pat, i, &x), 0})
+						}
+					}
+					grow(n)
+					refilled := false
+					for step := 0; ok && len(model) > 0; step++ {
+						sz := len(model)
+						switch dr {
+						case "pop":
+							ok = do(qop{"Pop", 0, 0})
+						case "remove-first":
+							ok = do(qop{"Remove", 0, 0})
+						case "remove-last":
+							ok = do(qop{"Remove", sz - 1, 0})
+						case "remove-middle":
+							ok = do(qop{"Remove", sz / 2, 0})
+						case "pop-and-remove-last":
+							if step%2 == 0 {
+								ok = do(qop{"Pop", 0, 0})
+							} else {
+								ok = do(qop{"Remove", sz - 1, 0})
+							}
+						case "pop-refill-half-pop":
+							ok = do(qop{"Pop", 0, 0})
+							if ok && !refilled && len(model) <= n/2 {
+								refilled = true
+								grow(n)
+							}
+						case "fix-then-pop":
+							ok = do(qop{"Fix", sz / 2, prio("lcg", step, &x)})
+							if ok {
+								ok = do(qop{"Pop", 0, 0})
+							}
+						}
+					}
+				}
+			}
+		}
+	}
+}
+
+func tailStr(h []string, n int) []string {
+	if len(h) > n {
+		return h[len(h)-n:]
+	}
+	return h
+}
